@@ -123,9 +123,11 @@ func (evpool *Pool) Update(state sm.State, ev types.EvidenceList) {
 	// move committed evidence out from the pending pool and into the committed pool
 	evpool.markEvidenceAsCommitted(ev)
 
-	// prune pending evidence when it has expired. This also updates when the next evidence will expire
-	if evpool.Size() > 0 && state.LastBlockHeight > evpool.pruningHeight &&
-		state.LastBlockTime.After(evpool.pruningTime) {
+	// prune pending evidence when it has expired. This is done on every update: pending
+	// evidence is proposed (PendingEvidence) and accepted in blocks (CheckEvidence) without
+	// being verified again, so nothing that has expired under the new state may stay pending.
+	// The walk stops at the first item that has not expired.
+	if evpool.Size() > 0 {
 		evpool.pruningHeight, evpool.pruningTime = evpool.removeExpiredPendingEvidence()
 	}
 }
